@@ -569,7 +569,9 @@ func hpWorldCorpus(x *hpRun) [][]string {
 func hpWorldGen(g *hpGen, types []*hpType, n int) []string {
 	rng := g.rng
 	ops := []string{"world"}
-	tail := func(w *hpWrite) string { return strings.TrimPrefix(w.line(), fmt.Sprintf("upd %d %d ", h.B2i(w.remote), h.B2i(w.persist))) }
+	tail := func(w *hpWrite) string {
+		return strings.TrimPrefix(w.line(), fmt.Sprintf("upd %d %d ", h.B2i(w.remote), h.B2i(w.persist)))
+	}
 	for len(ops) < n {
 		si := rng.Intn(4)
 		if rng.Intn(12) == 0 {
@@ -625,14 +627,14 @@ func hpWorldRun(r *h.Report, x *hpRun) {
 	// sample of the C04 grid through write datagrams
 	for si, ty := range ts {
 		stores, writes := hpGridStores(ty), hpGridWrites(ty)
-		for i := 0; i < h.Scale(150, 4000); i++ {
+		for i := 0; i < h.Scale(150, 3000); i++ {
 			s, wr := stores[rng.Intn(len(stores))], writes[rng.Intn(len(writes))]
 			tail := strings.TrimPrefix(wr.line(), "upd 1 1 ")
 			w.history(r, x, []string{"world", fmt.Sprintf("lset %d %s", si, hpListS(s)), "alt 0 1 2 3", fmt.Sprintf("write %d %s", si, tail)})
 		}
 	}
 	g := &hpGen{rng: rng}
-	for i := 0; i < h.Scale(120, 4000); i++ {
+	for i := 0; i < h.Scale(120, 3000); i++ {
 		w.history(r, x, hpWorldGen(g, ts, 10+rng.Intn(21)))
 	}
 	for k, n := range w.notes {
